@@ -64,6 +64,11 @@ func (g *gzipResponseWriter) sendHeader() {
 }
 
 func (g *gzipResponseWriter) Write(b []byte) (int, error) {
+	if g.bufferExceeded {
+		// Already streaming uncompressed: later chunks must not go back into
+		// the buffer, which is never written out once the cap was exceeded
+		return g.ResponseWriter.Write(b)
+	}
 	// Check if adding this data would exceed max buffer size
 	if g.buf.Len()+len(b) > MaxCompressionBufferSize {
 		// Mark as exceeded and fall back to streaming uncompressed
